@@ -54,7 +54,7 @@ func call(cl queue.Client, ty int64, data interface{}) (*queue.Message, error) {
 }
 
 func qMemSet(cl queue.Client, parent []byte, kv [][2]string, height int64) ([]byte, error) {
-	reply, err := call(cl, types.EventStoreMemSet, &types.StoreSetWithSync{Storeset: storeSet(parent, kv, height), Sync: true})
+	reply, err := call(cl, types.EventStoreMemSet, &types.StoreSetWithSync{Storeset: storeSet(parent, kv, height), Sync: false})
 	if err != nil {
 		return nil, err
 	}
